@@ -551,9 +551,76 @@ where
     sub.held(h.get(), true);
 }
 
+/// matrices over a product ring: the element type is itself a vek vector (element-wise + and *),
+/// a legitimate commutative ring; matrix*matrix, matrix*vector and vector*matrix must be the sums
+/// of products per lane of the element
+macro_rules! ring_case {
+    ($sub:expr, $cfg:expr, $idx:expr, $M:ident, $MV:ident, $E:ident, $lanes:expr, $name:expr) => {{
+        type E = $E<i64>;
+        let n = <$M<E> as MatX<E>>::N;
+        let mut rng = Rng::for_case(concat!("product_ring/", $name), $cfg.case_seed(), $idx);
+        let mut h = H64::new();
+        h.s($name);
+        let mut gen = |rng: &mut Rng, h: &mut H64| -> Vec<i64> { (0..$lanes).map(|_| { let x = rng.range_i64(-9, 9); h.i(x as i128); x }).collect() };
+        let ea: Vec<Vec<Vec<i64>>> = (0..n).map(|_| (0..n).map(|_| gen(&mut rng, &mut h)).collect()).collect();
+        let eb: Vec<Vec<Vec<i64>>> = (0..n).map(|_| (0..n).map(|_| gen(&mut rng, &mut h)).collect()).collect();
+        let ev: Vec<Vec<i64>> = (0..n).map(|_| gen(&mut rng, &mut h)).collect();
+        let el = |l: &Vec<i64>| -> E { <E as VecX<i64>>::from_fn(|k| l[k]) };
+        let a = <$M<E> as MatX<E>>::from_fn(|i, j| el(&ea[i][j]));
+        let b = <$M<E> as MatX<E>>::from_fn(|i, j| el(&eb[i][j]));
+        let v = <$MV<E> as VecX<E>>::from_fn(|i| el(&ev[i]));
+        let api = format!("Mul for {}<{}<i64>>", $name, stringify!($E));
+        $sub.saw(&api);
+        match guarded(|| (a * b, a * v, v * a)) {
+            Err(e) => {
+                let vio = violation(PROP, $sub, &api, "product ring", "panic", $name, format!("a={:?} b={:?}: {}", ea, eb, e), $cfg.case_seed(), $idx);
+                $sub.violated(vio);
+            }
+            Ok((c, mv, vm)) => {
+                let mut bad = None;
+                'outer: for i in 0..n {
+                    for l in 0..$lanes {
+                        let (mut s1, mut s2) = (0i64, 0i64);
+                        for k in 0..n {
+                            s1 += ea[i][k][l] * ev[k][l];
+                            s2 += ev[k][l] * ea[k][i][l];
+                        }
+                        if *mv.at(i).at(l) != s1 { bad = Some(format!("(a*v)[{}] lane {} = {}, expected {}", i, l, mv.at(i).at(l), s1)); break 'outer; }
+                        if *vm.at(i).at(l) != s2 { bad = Some(format!("(v*a)[{}] lane {} = {}, expected {}", i, l, vm.at(i).at(l), s2)); break 'outer; }
+                        for j in 0..n {
+                            let mut s = 0i64;
+                            for k in 0..n {
+                                s += ea[i][k][l] * eb[k][j][l];
+                            }
+                            if *c.at(i, j).at(l) != s { bad = Some(format!("(a*b)({},{}) lane {} = {}, expected {}", i, j, l, c.at(i, j).at(l), s)); break 'outer; }
+                        }
+                    }
+                }
+                match bad {
+                    None => { $sub.sample(|| format!("{}: a={:?} b={:?}: products are the per-lane sums of products", api, ea, eb)); $sub.held(h.get(), true); }
+                    Some(msg) => { let vio = violation(PROP, $sub, &api, "product ring", "wrong_value", $name, format!("a={:?} b={:?} v={:?}: {}", ea, eb, ev, msg), $cfg.case_seed(), $idx); $sub.violated(vio); }
+                }
+            }
+        }
+    }};
+}
+
 fn main() {
     let cfg = Config::from_args(PROP);
     let mut rep = Report::new(cfg.clone());
+    {
+        let nr = cfg.n(200, 20_000);
+        let proto = Sub::new("product_ring", "matrices whose element type is a vek vector (Vec2<i64>, Vec3<i64>: the product ring with element-wise + and *), small random entries, Mat2/3/4 in both layouts: a*b, a*v and v*a must be the sums of products in every lane of the element; distinct by hash of all entries").with_floor(nr * 4);
+        let s = run_cases(&cfg, proto, nr, |s, i| {
+            ring_case!(s, &cfg, i, Rows2, Vec2, Vec2, 2, "Rows2");
+            ring_case!(s, &cfg, i, Cols2, Vec2, Vec2, 2, "Cols2");
+            ring_case!(s, &cfg, i, Rows3, Vec3, Vec2, 2, "Rows3");
+            ring_case!(s, &cfg, i, Cols3, Vec3, Vec3, 3, "Cols3");
+            ring_case!(s, &cfg, i, Rows4, Vec4, Vec3, 3, "Rows4");
+            ring_case!(s, &cfg, i, Cols4, Vec4, Vec2, 2, "Cols4");
+        });
+        rep.push(s);
+    }
 
     // ---- trace sub-checks: one traced execution per (shape, form); deterministic
     {
